@@ -48,8 +48,8 @@ impl Check for C12 {
 	fn runs(&self, tier: Tier) -> u64 {
 		let slots = (IND.len() + MET.len() + crate::ieng::indicators().len() + 1) as u64;
 		match tier {
-			Tier::Quick => slots * 150,
-			Tier::Thorough => slots * 5_000,
+			Tier::Quick => slots * 1_200,
+			Tier::Thorough => slots * 20_000,
 		}
 	}
 	fn generate(&self, root: &Rng, i: u64, tier: Tier) -> MCase {
